@@ -126,4 +126,73 @@ for kind, Ms in (("function", SYNC), ("generator", SYNC), ("coroutine", [AAliase
             leg.violation(key, f"probe from inside the exit function {M.__name__}.{('__aexit__' if kind == 'coroutine' else '__exit__')} "
                                f"(leaving by {how}): contexts {[(c.obj, c.is_exiting) for c in cs]}, expected the manager {holder[0]!r} last and exiting; "
                                f"error={st.error!r}")
+
+# the same question asked from OUTSIDE: a coroutine suspended inside an aliased / decorated __aexit__ (C01), a thread parked inside an
+# aliased / decorated __exit__ (C07): the exiting context names the manager
+import types, threading
+
+
+@types.coroutine
+def trap():
+    yield
+
+
+class SuspAliased:
+    async def __aenter__(s): return s
+    async def aclose(s, *a): await trap(); return False
+    __aexit__ = aclose
+
+
+class SuspDecorated:
+    async def __aenter__(s): return s
+    @logged
+    async def __aexit__(s, *a): await trap(); return False
+
+
+for M in (SuspAliased, SuspDecorated):
+    holder = []
+    async def user():
+        m = M(); holder.append(m)
+        async with m:
+            pass
+    c = user(); c.send(None)
+    key = ("suspended-in-exit", M.__name__)
+    leg.case(key, True)
+    st = stackscope.extract(c)
+    cs = st.frames[0].contexts
+    if st.error is not None or not cs or not cs[-1].is_exiting or cs[-1].obj is not holder[0]:
+        leg.violation(key, f"coroutine suspended inside {M.__name__}'s exit function: contexts {[(c_.obj, c_.is_exiting) for c_ in cs]}, "
+                           f"expected the manager last and exiting; error={st.error!r}")
+    c.close()
+
+
+class ParkAliased:
+    def __init__(s, ev, go): s.ev, s.go = ev, go
+    def __enter__(s): return s
+    def close(s, *a): s.ev.set(); s.go.wait(); return False
+    __exit__ = close
+
+
+class ParkDecorated(ParkAliased):
+    @logged
+    def __exit__(s, *a): s.ev.set(); s.go.wait(); return False
+
+
+for M in (ParkAliased, ParkDecorated):
+    ev, go = threading.Event(), threading.Event()
+    holder = []
+    def body():
+        m = M(ev, go); holder.append(m)
+        with m:
+            pass
+    t = threading.Thread(target=body); t.start(); ev.wait()
+    key = ("thread-parked-in-exit", M.__name__)
+    leg.case(key, True)
+    st = stackscope.extract(t)
+    fr = [f for f in st.frames if f.funcname == "body"]
+    cs = fr[0].contexts if fr else []
+    if st.error is not None or not cs or not cs[-1].is_exiting or cs[-1].obj is not holder[0]:
+        leg.violation(key, f"thread parked inside {M.__name__}'s exit function: contexts {[(c_.obj, c_.is_exiting) for c_ in cs]}, "
+                           f"expected the manager last and exiting; error={st.error!r}")
+    go.set(); t.join()
 leg.finish(exhaustive=True)
